@@ -152,4 +152,44 @@ AlgoSubE2(N, a, b) ==
   IF IsNaR(N, a) \/ IsNaR(N, b) THEN NaR(N)
   ELSE IF a = <<>> \/ b = <<>> THEN Add(a, Neg(N, b))
   ELSE AlgoAddE2(N, a, Neg(N, b))
+
+-----------------------------------------------------------------------------
+(* div: the 61-bit dividend 1.f * 2^60 by the 31-bit divisor significand (lldiv), quotient with *)
+(* its hidden bit at position 30 or 29 (then shifted up, the exponent borrowing from the regime), *)
+(* a 32-bit tail of its own: the 30 fraction bits are tested in place (masks shifted by           *)
+(* N - reg - 2) and the remainder is one more sticky source.                                      *)
+DivTailE2(N, k, ex, F, remnz) ==
+  LET c == CalcRegime(k) IN
+  IF c.reg > N - 2 THEN (IF c.s THEN TopBits(W31, N) ELSE Pow2(32 - N))
+  ELSE
+    LET wide == c.reg + 4 <= N
+        sh   == N - c.reg - 2
+        bnp1 == IF wide THEN Bit(F, 31 - sh) = 1
+                ELSE IF c.reg = N - 2 THEN (ex \div 2) % 2 = 1
+                ELSE ex % 2 = 1
+        more == (IF wide THEN LowNonZero(F, 31 - sh)
+                 ELSE (c.reg = N - 2 /\ ex % 2 = 1) \/ F # <<>>) \/ remnz
+        ex2  == IF wide THEN ex ELSE IF c.reg = N - 2 THEN 0 ELSE (ex \div 2) * 2
+        fa   == IF wide THEN TopBits(ZeroShr(F, c.reg + 2), N) ELSE <<>>
+        exw  == IF c.reg <= 28 THEN Shl(FromInt(ex2), 28 - c.reg) ELSE FromInt(ex2 \div (2 ^ (c.reg - 28)))
+        u    == Add(Add(c.bits, exw), fa)
+    IN IF bnp1 THEN Add(u, Shl(FromInt(BOr(Bit(u, 32 - N), more)), 32 - N)) ELSE u
+
+DivMagE2(N, a, b) ==
+  LET x == Sep(N, a)  y == Sep(N, b)
+      qr == DivMod(Shl(x.f, 30), y.f)
+      e0 == x.ex - y.ex
+      k1 == IF e0 < 0 THEN x.k - y.k - 1 ELSE x.k - y.k
+      e1 == IF e0 < 0 THEN e0 + 4 ELSE e0
+      rc == Shr(qr[1], 30) # <<>>
+      k2 == IF ~rc /\ e1 = 0 THEN k1 - 1 ELSE k1
+      e2 == IF rc THEN e1 ELSE IF e1 = 0 THEN 3 ELSE e1 - 1
+      Q  == IF rc THEN qr[1] ELSE Shl(qr[1], 1)
+  IN Shr(DivTailE2(N, k2, e2, Low(Q, 30), qr[2] # <<>>), 32 - N)
+
+AlgoDivE2(N, a, b) ==
+  IF IsNaR(N, a) \/ IsNaR(N, b) \/ b = <<>> THEN NaR(N)
+  ELSE IF a = <<>> THEN <<>>
+  ELSE LET r == DivMagE2(N, Abs(N, a), Abs(N, b))
+       IN IF Sign(N, a) # Sign(N, b) THEN Neg(N, r) ELSE r
 =======================================================================
